@@ -80,3 +80,23 @@ Theorem C19_bool_const_spellings : forall v,
   checke (cmp EQL (cmp NEQ (ENot c) (EBool true)) (EBool true)) = Some (true, false, ptr v).
 Proof. exact bool_const_spellings. Qed.
 Print Assumptions C19_bool_const_spellings.
+
+(* ---- nil checks that are operands of a short-circuit VALUE expression (model M14 = the BinaryExpr case of AddComputation
+   after the repair of F100, tied to the real tool by checks/shortcircuit_suite.py) ---- *)
+From NM Require Import ShortCircuit.
+From NP Require Import ShortCircuitProofs.
+
+(* every dereference inside the expression that can panic -- for some nil-ness of the variables and some outcome of the
+   opaque operands -- is reported, for every expression all of whose LEFT operands are pure trees of the operator they
+   stand under (any depth, any right nesting) *)
+Theorem C19_short_circuit_attribution : forall e nilv orc l,
+  left_pure e = true -> eval nilv orc e = Panic l -> In l (reported e).
+Proof. exact short_circuit_sound. Qed.
+Print Assumptions C19_short_circuit_attribution.
+
+(* outside that class the statement is false of the code: finding F104, with the failing inputs *)
+Theorem C19_short_circuit_refuted_outside_class :
+  (left_pure f104a = false /\ eval (fun _ => true) (fun _ => true) f104a = Panic 1%nat /\ reported f104a = nil) /\
+  (left_pure f104b = false /\ eval (fun _ => true) (fun _ => false) f104b = Panic 1%nat /\ reported f104b = nil).
+Proof. exact short_circuit_refuted_outside_class. Qed.
+Print Assumptions C19_short_circuit_refuted_outside_class.
